@@ -609,3 +609,58 @@ func g16RewriteTarget(r *Repo, rep *Report) {
 	rep.fail(Finding{Rule: "G16", Key: "G16|rewrite-target|not-bare-identifier", Where: []string{r.pos(visit.Decl.Pos())},
 		Msg: fmt.Sprintf("(*finder).Visit records calls whose callee is an identifier only after %v: the rename then replaces the whole callee expression (call.Expr.Fun), so for `(deriveEqual)(a, b)` the parentheses disappear — the rewritten file is not the original with just the identifier substituted", asserted)})
 }
+
+// g20AliasInjective — when an imported package's own name is taken, NewImport falls back to an alias computed from the import
+// path by makeFullpath, and panics if two different paths give the same alias. makeFullpath is evaluated (abstractly, on
+// literal paths) over pairs of paths that differ only in their leading elements, in one element, or in length: distinct
+// paths must give distinct aliases; and every alias must be a Go identifier.
+func g20AliasInjective(c *Ctx) {
+	fi := c.Repo.lookup("derive.makeFullpath")
+	if fi == nil {
+		c.Rep.fail(Finding{Rule: "G20", Key: "G20|alias|missing", Kind: "undecided", Msg: "derive.makeFullpath not found"})
+		return
+	}
+	paths := []string{"demo/billing/v1/model", "demo/shipping/v1/model", "demo/returns/v1/model", "v1/model", "model", "a/model", "go/scanner", "text/scanner",
+		"github.com/gogo/protobuf/types", "github.com/golang/protobuf/types", "example.com/x/y-z", "example.com/x/yz"}
+	got := map[string]string{}
+	for _, p := range paths {
+		in := &Interp{repo: c.Repo, plugin: "derive", decls: c.R.decls, or: &Oracle{}, memo: map[string]int{}, shape: 1, arities: []int{1, 0},
+			preds: map[string]Value{}, stack: map[*ast.FuncDecl]int{}, imports: map[string]int{}, importUse: map[string]bool{}, holes: map[string]*Hole{}, g9mode: true}
+		var res Value
+		msg := ""
+		func() {
+			defer func() {
+				if e := recover(); e != nil {
+					if a, ok := e.(abort); ok {
+						msg = a.kind + ": " + a.msg
+						return
+					}
+					msg = fmt.Sprint(e)
+				}
+			}()
+			res = in.callFunc(&VFunc{Decl: fi.Decl, Pkg: fi.Pkg}, []Value{lit(p)}, token.NoPos)
+		}()
+		rs, isStr := res.(VStr)
+		alias, isLit := "", false
+		if isStr {
+			alias, isLit = rs.isLit()
+		}
+		if msg != "" || !isLit {
+			c.Rep.fail(Finding{Rule: "G20", Key: "G20|alias|undecided", Kind: "undecided", Where: []string{c.Repo.pos(fi.Decl.Pos())}, Msg: "makeFullpath(" + p + ") cannot be evaluated abstractly: " + msg})
+			return
+		}
+		if !token.IsIdentifier(alias) {
+			c.Rep.fail(Finding{Rule: "G20", Key: "G20|alias|not-identifier", Where: []string{c.Repo.pos(fi.Decl.Pos())},
+				Msg: fmt.Sprintf("makeFullpath(%q) = %q is not a Go identifier: the import alias makes derived.gen.go unparsable", p, alias)})
+			continue
+		}
+		if prev, dup := got[alias]; dup {
+			c.Rep.fail(Finding{Rule: "G20", Key: "G20|alias|collision", Where: []string{c.Repo.pos(fi.Decl.Pos())},
+				Msg: fmt.Sprintf("makeFullpath gives the same fallback alias %q for the import paths %q and %q: with a third package of that name in one derived.gen.go NewImport panics (\"non unique fullpath\") instead of importing both", alias, prev, p)})
+			continue
+		}
+		got[alias] = p
+		c.Rep.pass("G20")
+	}
+	c.Rep.analysed("fallback_alias_paths", len(paths))
+}
